@@ -121,6 +121,9 @@ class Interp:
             return key + out
         if isinstance(e, ast.Call) and dotted_name(e.func) in ('str', 'os.fspath', 'os.path.abspath', 'pathlib.Path', 'Path') and e.args:
             return self.path_key(e.args[0], env)
+        if isinstance(e, ast.Call) and isinstance(e.func, ast.Attribute) and e.func.attr == 'replace' and len(e.args) == 2 and all(isinstance(a, (ast.Constant, ast.JoinedStr)) for a in e.args):
+            # str.replace(old, new) returns the string itself when `old` does not occur in it: for an arbitrary checkpoint name the result may be that very name
+            return self.path_key(e.func.value, env)
         raise Unsupported(e, f"path expression {ast.unparse(e)} not understood")
 
     def is_path_expr(self, e, env) -> bool:
@@ -281,6 +284,8 @@ class Interp:
             for p in params[2:] + [a.arg for a in wfn.args.kwonlyargs]:
                 ex = bound.get(p, dfl.get(p))
                 flags[p] = const_of(ex) if ex is not None else None
+                if isinstance(ex, ast.Name) and self.flags.get(ex.id) is not None:
+                    flags[p] = self.flags[ex.id]     # forwarded from a parameter of the caller whose value is known
             sub = Interp(wfn, wmod, flags, path_binding={params[0]: key})
             sub.write_exceptions = self.write_exceptions
             sub.visited = self.visited
@@ -628,6 +633,51 @@ def history(origin, s) -> List[str]:
 # call sites
 # ---------------------------------------------------------------------------
 
+def callers_of(ctx, encl, m):
+    """call sites of the function `encl` of module m: `self.<f>(...)` is resolved through the class table
+    (the receiver's class must resolve <f> to this very method); other receivers match by name."""
+    cls = enclosing_class(encl)
+    cls_info = ctx.classes.find(f"{m.name}.{cls.name}") if cls is not None else None
+    callers = []
+    for m2 in ctx.prog.modules.values():
+        for node in ast.walk(m2.tree):
+            if not isinstance(node, ast.Call):
+                continue
+            if isinstance(node.func, ast.Attribute) and node.func.attr == encl.name:
+                recv = node.func.value
+                if isinstance(recv, ast.Name) and recv.id == 'self':
+                    c2 = enclosing_class(node)
+                    ci = ctx.classes.find(f"{m2.name}.{c2.name}") if c2 is not None else None
+                    if ci is not None and cls_info is not None:
+                        r = ci.resolve(encl.name)
+                        if r is None or r[1] is not encl:
+                            continue
+                callers.append((m2, node))
+            elif isinstance(node.func, ast.Name) and node.func.id == encl.name and cls is None:
+                callers.append((m2, node))
+    return callers
+
+
+def own_flag_combos(ctx, encl, m, skip) -> List[Dict[str, object]]:
+    """constant values of the parameters of `encl` at its own call sites (defaults when it has none)."""
+    cls = enclosing_class(encl)
+    names = [a.arg for a in encl.args.args + encl.args.kwonlyargs if a.arg not in skip and a.arg != 'self']
+    d = defaults_of(encl)
+    combos = []
+    callers = callers_of(ctx, encl, m)
+    if not callers:
+        return [{f: (const_of(d[f]) if f in d else None) for f in names}]
+    for m2, c2 in callers:
+        b = bind_args(encl, c2, skip_self=cls is not None)
+        vals = {}
+        for f in names:
+            e = b.get(f, d.get(f))
+            vals[f] = const_of(e) if e is not None else None
+        if vals not in combos:
+            combos.append(vals)
+    return combos
+
+
 def flag_values(ctx, fn, flag_names, m, call, depth=0) -> List[Tuple[Dict[str, object], str]]:
     """possible constant values of the flags at this call site; a flag forwarded from a
     parameter of the enclosing function is resolved through that function's own call
@@ -660,24 +710,7 @@ def flag_values(ctx, fn, flag_names, m, call, depth=0) -> List[Tuple[Dict[str, o
     # (the receiver's class must resolve <f> to this very method); other receivers match by name
     out = []
     cls = enclosing_class(encl)
-    cls_info = ctx.classes.find(f"{m.name}.{cls.name}") if cls is not None else None
-    callers = []
-    for m2 in ctx.prog.modules.values():
-        for node in ast.walk(m2.tree):
-            if not isinstance(node, ast.Call):
-                continue
-            if isinstance(node.func, ast.Attribute) and node.func.attr == encl.name:
-                recv = node.func.value
-                if isinstance(recv, ast.Name) and recv.id == 'self':
-                    c2 = enclosing_class(node)
-                    ci = ctx.classes.find(f"{m2.name}.{c2.name}") if c2 is not None else None
-                    if ci is not None and cls_info is not None:
-                        r = ci.resolve(encl.name)
-                        if r is None or r[1] is not encl:
-                            continue
-                callers.append((m2, node))
-            elif isinstance(node.func, ast.Name) and node.func.id == encl.name and cls is None:
-                callers.append((m2, node))
+    callers = callers_of(ctx, encl, m)
     if not callers:
         # public wrapper without in-package callers: defaults of the wrapper
         d2 = defaults_of(encl)
@@ -812,19 +845,47 @@ def run(ctx, rep):
         cls = enclosing_class(call)
         ckey = f"caller::{m2.name}.{cls.name + '.' if cls is not None else ''}{encl.name}"
         try:
-            seen, origin, trans, interp = explore(encl, m2, {}, root_attrs=attrs, writer=(m, fn))
+            # a parameter of the caller that is handed to the writer as its path IS the checkpoint name
+            binding = {}
+            own = {a.arg for a in encl.args.args + encl.args.kwonlyargs}
+            for n in ast.walk(encl):
+                if isinstance(n, ast.Call) and (dotted_name(n.func) or '').split('.')[-1] == fn.name:
+                    pa = bind_args(fn, n).get(fn.args.args[0].arg)
+                    names = {x.id for x in ast.walk(pa) if isinstance(x, ast.Name)} if pa is not None else set()
+                    grew = True
+                    while grew:      # through local names: tmp = checkpoint.replace(…); writer(tmp, …)
+                        grew = False
+                        for a_ in ast.walk(encl):
+                            if isinstance(a_, ast.Assign) and any(isinstance(t_, ast.Name) and t_.id in names for t_ in a_.targets):
+                                more = {x.id for x in ast.walk(a_.value) if isinstance(x, ast.Name)} - names
+                                if more:
+                                    names |= more
+                                    grew = True
+                    for nm in names & own:
+                        binding[nm] = ''
+            runs = []
+            for own_flags in own_flag_combos(ctx, encl, m2, set(binding)):
+                seen, origin, trans, interp = explore(encl, m2, own_flags, root_attrs=attrs, writer=(m, fn), path_binding=binding or None)
+                runs.append((own_flags, seen, origin, interp))
         except Unsupported as u:
             for r in ('C18.I1', 'C18.I2'):
                 rep.undecided(r, ckey, where(m2, u.node), str(u))
             continue
-        facts = {'caller': ckey, 'states': len(seen), 'effects': sorted(interp.effects_seen), 'reachable': [s_.show() for s_ in sorted(seen, key=repr)][:30]}
-        bad1 = [s_ for s_ in seen if not any(s_.get(k) == C for k in SIBLINGS)]
-        bad2 = [s_ for s_ in seen if s_.get('') == P]
-        for rule, bad, msg in (('C18.I1', bad1, 'no complete checkpoint under name/.old/.new'), ('C18.I2', bad2, 'checkpoint name is a truncated file')):
-            if bad:
-                s_ = sorted(bad, key=repr)[0]
-                rep.bad(rule, ckey, where(m2, call), {**facts, 'state': s_.show(), 'history': history(origin, s_)},
-                        f"{msg} in state {s_!r}; reached by: {' ; '.join(history(origin, s_))}")
+        facts = {'caller': ckey, 'flag_combinations': [r_[0] for r_ in runs], 'states': sum(len(r_[1]) for r_ in runs),
+                 'effects': sorted(set().union(*[r_[3].effects_seen for r_ in runs])),
+                 'reachable': [s_.show() for s_ in sorted({s_ for r_ in runs for s_ in r_[1]}, key=repr)][:30]}
+        for rule, pred, msg in (('C18.I1', lambda s_: not any(s_.get(k) == C for k in SIBLINGS), 'no complete checkpoint under name/.old/.new'),
+                                ('C18.I2', lambda s_: s_.get('') == P, 'checkpoint name is a truncated file')):
+            hit = None
+            for own_flags, seen, origin, interp in runs:
+                bad = [s_ for s_ in seen if pred(s_)]
+                if bad:
+                    hit = (own_flags, sorted(bad, key=repr)[0], origin)
+                    break
+            if hit:
+                own_flags, s_, origin = hit
+                rep.bad(rule, ckey, where(m2, call), {**facts, 'flags': own_flags, 'state': s_.show(), 'history': history(origin, s_)},
+                        f"{msg} in state {s_!r} (called with {own_flags}); reached by: {' ; '.join(history(origin, s_))}")
             else:
                 rep.ok(rule, ckey, where(m2, call), facts)
     sites_for_flags = plain_sites
